@@ -69,6 +69,53 @@ def log_target(spec):
     return n
 
 
+_SCRIPT_KEEP = []
+
+
+def script_main(sc, outp):
+    """body of a launching SCRIPT (run with `python -c` in its own interpreter): configure logging, start a non-daemon
+    Process, join it - and simply end.  Whatever the parent still has to handle after the script's last statement must be
+    handled before the interpreter goes away.  The handler and the main thread write what they see to `outp`."""
+    import threading
+    from mpservice.multiprocessing import Process
+    lock = threading.Lock()
+    f = open(outp, 'a', buffering=1)
+
+    def note(line):
+        with lock:
+            f.write(line + '\n')
+            f.flush()
+
+    class FileRecorder(logging.Handler):
+        def emit(self, record):
+            if record.name != LOGGER_NAME:
+                return
+            try:
+                i = int(record.getMessage().split(' ', 1)[0][1:])
+            except Exception:  # noqa: BLE001
+                i = -1
+            note(f'H {i}')
+            if sc['slow']:
+                time.sleep(SLOW_S)
+
+    root = logging.getLogger()
+    for h in list(root.handlers):
+        root.removeHandler(h)
+    root.setLevel(logging.INFO)
+    root.addHandler(FileRecorder(level=logging.NOTSET))
+    p = Process(target=log_target, args=({k: sc[k] for k in ('n', 'bytes', 'lo_every', 'kind') if k in sc},),
+                name='verif-log-script')
+    _SCRIPT_KEEP.append(p)        # a script-level variable: still referenced when the script ends
+    p.start()
+    try:
+        p.join()
+        note('J ret')
+    except BaseException:  # noqa: BLE001
+        note('J raise')
+    note(f'X {p.exitcode if p.exitcode is not None else 99}')
+    # the script ends here
+
+
 def pool_task(first, count, nbytes, lo_every):
     emit_records(first, count, nbytes, lo_every)
     return first + count - 1
@@ -222,6 +269,37 @@ def run_case(item, bound):
             if out is None:
                 return hang('join', f'ProcessPoolExecutor.shutdown did not return within {slack:.1f}s')
             ev.append({'ev': 'Join', 'k': out[0]})
+        elif sc['flavour'] == 'script':
+            import subprocess
+            import tempfile
+            d = tempfile.mkdtemp(prefix='verif-cl-')
+            outp = os.path.join(d, 'seen.txt')
+            here = os.path.dirname(os.path.dirname(os.path.dirname(os.path.abspath(__file__))))
+            code = ('import sys; sys.path[:0] = %r; from mbt.bind import childlog as C; C.script_main(%r, %r)'
+                    % ([here, os.environ.get('VERIF_REPO_SRC', '/repo/src')], sc, outp))
+            try:
+                pr = subprocess.run([sys.executable, '-c', code], timeout=slack, stdout=subprocess.DEVNULL,
+                                    stderr=subprocess.DEVNULL, stdin=subprocess.DEVNULL)
+            except subprocess.TimeoutExpired:
+                return hang('join', f'the launching script had not ended after {slack:.1f}s')
+            try:
+                lines = open(outp).read().split()
+            except OSError:
+                lines = []
+            import shutil
+            shutil.rmtree(d, ignore_errors=True)
+            for tag, val in zip(lines[0::2], lines[1::2]):
+                if tag == 'H':
+                    ev.append({'ev': 'Handle', 'i': int(val)})
+                elif tag == 'J':
+                    ev.append({'ev': 'Join', 'k': val})
+                elif tag == 'X':
+                    ev.append({'ev': 'Exitcode', 'c': int(val)})
+            if pr.returncode != 0:
+                rec.update(status='crash', detail=f'the launching script ended with exit code {pr.returncode}')
+                return rec
+            ev.append({'ev': 'Stopped'})       # the interpreter has gone: nothing more will ever be handled
+            return rec
         else:
             raise AssertionError(sc['flavour'])
         if out[0] == 'raise':
@@ -302,6 +380,10 @@ def gen_scenarios(rnd, thorough):
         for slow in ((False, True) if thorough else (j % 2 == 0,)):
             out.append(hosted_scenario('servlet', calls, per, at_stop, nb, slow, lo_every=(0, 4)[j % 2]))
             out.append(hosted_scenario('pool', calls, max(per, 1), 0, nb, slow, lo_every=(0, 4)[j % 2]))
+    # a launching script that ends right after join() while the parent still has a backlog to handle (slow handler)
+    for j, (n, nb) in enumerate([(400, 60), (150, 2000), (30, 100)] + ([(800, 40), (60, 9000)] if thorough else [])):
+        for kind in (KINDS if thorough else (KINDS[j % 4],)):
+            out.append({'flavour': 'script', 'n': n, 'bytes': nb, 'slow': True, 'kind': kind, 'lo_every': (0, 3)[j % 2]})
     if True:
         for _ in range(40 if thorough else 8):
             n = rnd.choice([2, 7, 30, 64, 120, 250])
